@@ -92,17 +92,20 @@ def run(ctx: Ctx):
     okm = bool(fills)
     for fl in set(fills):
         m = fl.args[0]
-        cmpc = [c for c in ast.walk(m) if isinstance(c, ast.Call) and isinstance(c.func, ast.Attribute) and c.func.attr in ("ge", "gt", "lt", "le")]
-        cmpo = [c for c in ast.walk(m) if isinstance(c, ast.Compare)]
-        if len(cmpc) + len(cmpo) != 1:
+        from sa.astutil import oriented
+        from sa.inline import Inliner
+        mx = Inliner(f.node, rd, keep={HL}).expand(m)  # the index range may have been given a name
+        cmpo = [c for c in ast.walk(mx) if isinstance(c, ast.Compare)]
+        if len(cmpo) != 1:
             okm = False
             continue
-        if cmpc:
-            op, lhs, rhs = cmpc[0].func.attr, cmpc[0].func.value, cmpc[0].args[0]
-        else:
-            op = {ast.GtE: "ge", ast.Gt: "gt", ast.Lt: "lt", ast.LtE: "le"}.get(type(cmpo[0].ops[0]))
-            lhs, rhs = cmpo[0].left, cmpo[0].comparators[0]
-        has_ar = any(isinstance(c, ast.Call) and call_name(c) == "torch.arange" for c in ast.walk(lhs))
+        has_arange = lambda e: any(isinstance(c, ast.Call) and call_name(c) == "torch.arange" for c in ast.walk(e))
+        o = oriented(cmpo[0], has_arange)
+        if o is None:
+            okm = False
+            continue
+        op, lhs, rhs = o
+        has_ar = True
         from sa.astutil import eval_under_flag
         if not (op == "ge" and has_ar and isinstance(rhs, ast.BinOp) and isinstance(rhs.op, ast.Add) and u(rhs.left) == HL
                 and eval_under_flag(rhs.right, "exclude_last", True, rd) == 0
